@@ -761,6 +761,10 @@ const ALL_AT_ERR: [At; 4] = [At::BeforeDropInput, At::AfterDropInput, At::AfterB
 const ALL_PAYLOAD: [Payload; 3] = [Payload::Str, Payload::String, Payload::Custom];
 
 fn gen_len(rng: &mut Rng) -> usize {
+    // now and then a long vector (thresholds in chunked or batched implementations)
+    if rng.chance(1, 25) {
+        return *rng.pick(&[63usize, 64, 65, 127, 128, 129, 255, 256, 257, 300, 1000]);
+    }
     match rng.below(10) {
         0 => 0,
         1 => 1,
@@ -771,9 +775,9 @@ fn gen_len(rng: &mut Rng) -> usize {
     }
 }
 
-fn gen_case(seed: u64, run: u64, mode: Mode) -> Case {
+fn gen_case(seed: u64, run: u64, mode: Mode, max_len: usize) -> Case {
     let mut rng = Rng::new(derive(seed, mode as u64 + 1, run));
-    let len = gen_len(&mut rng);
+    let len = gen_len(&mut rng).min(max_len);
     let extra_cap = *rng.pick(&[0, 0, 1, 7]);
     if mode == Mode::Mismatch {
         let ms = mismatches();
@@ -998,8 +1002,9 @@ fn main() {
             let mut progress = simrt::Progress::open(arg(&args, "--progress"));
             let mut acc = Acc::new(arg(&args, "--mode").unwrap());
             acc.trace = args.iter().any(|a| a == "--trace-cases");
+            let max_len: usize = arg(&args, "--max-len").and_then(|s| s.parse().ok()).unwrap_or(usize::MAX);
             for run in start..start + count {
-                let case = gen_case(seed, run, mode);
+                let case = gen_case(seed, run, mode, max_len);
                 if !acc.feed(Some(run), case, run, &mut progress) {
                     break;
                 }
@@ -1059,7 +1064,8 @@ fn main() {
             let seed: u64 = arg(&args, "--seed").unwrap().parse().unwrap();
             let run: u64 = arg(&args, "--run").unwrap().parse().unwrap();
             let mode = parse_mode(arg(&args, "--mode").unwrap());
-            println!("{}", serde_json::to_string(&gen_case(seed, run, mode)).unwrap());
+            let max_len: usize = arg(&args, "--max-len").and_then(|s| s.parse().ok()).unwrap_or(usize::MAX);
+            println!("{}", serde_json::to_string(&gen_case(seed, run, mode, max_len)).unwrap());
         }
         "catalogue" => {
             for p in pairs() {
